@@ -65,10 +65,18 @@ static int pred_unlocked(void * m) { return slot_of(g_locked, m) < 0; }
 static int pred_guard_free(void * g) { return *static_cast<volatile char *>(g) != 0 || slot_of(g_initialising, g) < 0; }
 
 #define real(F, NAME) reinterpret_cast<F>(dlsym(RTLD_NEXT, NAME))
+// plain pointers, filled without a guarded static (a guarded static here would call our own __cxa_guard_acquire)
+static int (*g_real_pthread_mutex_lock)(pthread_mutex_t *) = nullptr;
+static int (*g_real_pthread_mutex_trylock)(pthread_mutex_t *) = nullptr;
+static int (*g_real_pthread_mutex_unlock)(pthread_mutex_t *) = nullptr;
+static int (*g_real___cxa_guard_acquire)(long long *) = nullptr;
+static void (*g_real___cxa_guard_release)(long long *) = nullptr;
+static int (*g_real_pthread_once)(pthread_once_t *, void (*)(void)) = nullptr;
+static void (*g_real___cxa_guard_abort)(long long *) = nullptr;
 
 int pthread_mutex_lock(pthread_mutex_t * m)
   {
-  if (!hsim_in_call()) { static auto f = real(int (*)(pthread_mutex_t *), "pthread_mutex_lock"); return f(m); }
+  if (!hsim_in_call()) { if (!g_real_pthread_mutex_lock) g_real_pthread_mutex_lock = real(int (*)(pthread_mutex_t *), "pthread_mutex_lock"); auto f = g_real_pthread_mutex_lock; return f(m); }
   hsim_yield(m, 1);
   hsim_wait_until(pred_unlocked, m);
   put(g_locked, m);
@@ -76,7 +84,7 @@ int pthread_mutex_lock(pthread_mutex_t * m)
   }
 int pthread_mutex_trylock(pthread_mutex_t * m)
   {
-  if (!hsim_in_call()) { static auto f = real(int (*)(pthread_mutex_t *), "pthread_mutex_trylock"); return f(m); }
+  if (!hsim_in_call()) { if (!g_real_pthread_mutex_trylock) g_real_pthread_mutex_trylock = real(int (*)(pthread_mutex_t *), "pthread_mutex_trylock"); auto f = g_real_pthread_mutex_trylock; return f(m); }
   hsim_yield(m, 1);
   if (!pred_unlocked(m)) return 16 /*EBUSY*/;
   put(g_locked, m);
@@ -84,7 +92,7 @@ int pthread_mutex_trylock(pthread_mutex_t * m)
   }
 int pthread_mutex_unlock(pthread_mutex_t * m)
   {
-  if (!hsim_in_call() || slot_of(g_locked, m) < 0) { static auto f = real(int (*)(pthread_mutex_t *), "pthread_mutex_unlock"); return f(m); }
+  if (!hsim_in_call() || slot_of(g_locked, m) < 0) { if (!g_real_pthread_mutex_unlock) g_real_pthread_mutex_unlock = real(int (*)(pthread_mutex_t *), "pthread_mutex_unlock"); auto f = g_real_pthread_mutex_unlock; return f(m); }
   drop(g_locked, m);
   hsim_yield(m, 1);
   return 0;
@@ -92,7 +100,7 @@ int pthread_mutex_unlock(pthread_mutex_t * m)
 
 int __cxa_guard_acquire(long long * g)
   {
-  if (!hsim_in_call()) { static auto f = real(int (*)(long long *), "__cxa_guard_acquire"); return f(g); }
+  if (!hsim_in_call()) { if (!g_real___cxa_guard_acquire) g_real___cxa_guard_acquire = real(int (*)(long long *), "__cxa_guard_acquire"); auto f = g_real___cxa_guard_acquire; return f(g); }
   hsim_yield(g, 0);
   if (*reinterpret_cast<volatile char *>(g) != 0) return 0;
   hsim_wait_until(pred_guard_free, g);
@@ -102,14 +110,33 @@ int __cxa_guard_acquire(long long * g)
   }
 void __cxa_guard_release(long long * g)
   {
-  if (slot_of(g_initialising, g) < 0) { static auto f = real(void (*)(long long *), "__cxa_guard_release"); f(g); return; }
+  if (slot_of(g_initialising, g) < 0) { if (!g_real___cxa_guard_release) g_real___cxa_guard_release = real(void (*)(long long *), "__cxa_guard_release"); auto f = g_real___cxa_guard_release; f(g); return; }
   *reinterpret_cast<volatile char *>(g) = 1;
   drop(g_initialising, g);
   hsim_yield(g, 1);
   }
+// std::call_once / pthread_once
+static const void * g_once_done[MAXOBJ];
+static const void * g_once_running[MAXOBJ];
+static int pred_once_free(void * o) { return slot_of(g_once_done, o) >= 0 || slot_of(g_once_running, o) < 0; }
+int pthread_once(pthread_once_t * o, void (*init)(void))
+  {
+  if (!hsim_in_call()) { if (!g_real_pthread_once) g_real_pthread_once = real(int (*)(pthread_once_t *, void (*)(void)), "pthread_once"); auto f = g_real_pthread_once; return f(o, init); }
+  hsim_yield(o, 0);
+  if (slot_of(g_once_done, o) >= 0) return 0;
+  hsim_wait_until(pred_once_free, o);
+  if (slot_of(g_once_done, o) >= 0) return 0;
+  put(g_once_running, o);
+  init();
+  drop(g_once_running, o);
+  put(g_once_done, o);
+  hsim_yield(o, 1);
+  return 0;
+  }
+
 void __cxa_guard_abort(long long * g)
   {
-  if (slot_of(g_initialising, g) < 0) { static auto f = real(void (*)(long long *), "__cxa_guard_abort"); f(g); return; }
+  if (slot_of(g_initialising, g) < 0) { if (!g_real___cxa_guard_abort) g_real___cxa_guard_abort = real(void (*)(long long *), "__cxa_guard_abort"); auto f = g_real___cxa_guard_abort; f(g); return; }
   drop(g_initialising, g);
   }
 }
